@@ -165,22 +165,59 @@ Qed.
 
 (* ---------- CBC ---------- *)
 
-(* F8: what cbc.go hmacCID authenticates is not the RFC 9146 section 5.1 input whenever the inner
-   plaintext is non-empty (and a DTLSInnerPlaintext is never empty: it contains real_type) *)
-Theorem cbc_cid_mac_input_differs e s v cid inner :
-  inner <> [] -> cbc_mac_input_cid_as_coded e s v cid inner <> cbc_mac_input_cid e s v cid inner.
+(* RFC 9146 section 5.1: the MAC input of a connection-ID record is the RFC 9146 additional data
+   (section 5.3, with length_of_DTLSInnerPlaintext) followed by the serialized DTLSInnerPlaintext,
+   exactly once *)
+Theorem cbc_mac_input_cid_layout e s v cid inner :
+  cbc_mac_input_cid e s v cid inner = aad12_cid e s v cid (len inner) ++ inner /\
+  length (cbc_mac_input_cid e s v cid inner) = (23 + length cid + length inner)%nat.
 Proof.
-  intros Hne E. unfold cbc_mac_input_cid_as_coded in E.
-  rewrite <- (app_nil_r (cbc_mac_input_cid e s v cid inner)) in E at 2.
-  apply app_inv_head in E. contradiction.
+  split.
+  - unfold cbc_mac_input_cid, aad12_cid. now repeat rewrite <- app_assoc.
+  - unfold cbc_mac_input_cid, seq_num_placeholder. repeat rewrite app_length.
+    repeat rewrite be_enc_length. rewrite repeat_length. lia.
 Qed.
 
-Theorem cbc_cid_mac_input_refuted :
-  exists e s v cid inner,
-    cbc_mac_input_cid_as_coded e s v cid inner <> cbc_mac_input_cid e s v cid inner.
+(* the MAC input determines every authenticated field and the whole inner plaintext *)
+Theorem cbc_mac_input_cid_injective e s v cid inner e' s' v' cid' inner' :
+  e < 2 ^ 16 -> e' < 2 ^ 16 -> s < 2 ^ 48 -> s' < 2 ^ 48 -> v < 2 ^ 16 -> v' < 2 ^ 16 ->
+  len cid < 256 -> len cid' < 256 -> len inner < 2 ^ 16 -> len inner' < 2 ^ 16 ->
+  cbc_mac_input_cid e s v cid inner = cbc_mac_input_cid e' s' v' cid' inner' ->
+  e = e' /\ s = s' /\ v = v' /\ cid = cid' /\ inner = inner'.
 Proof.
-  exists 1, 0, 65277, [1; 2], (inner_plaintext [104; 105] 23 0).
-  apply cbc_cid_mac_input_differs. discriminate.
+  intros He He' Hs Hs' Hv Hv' Hc Hc' Hi Hi' E. unfold cbc_mac_input_cid in E.
+  apply app_inv_head in E. apply app_inv_head in E.
+  apply app_inj_pfx_len in E; [|now rewrite !be_enc_length]. destruct E as [Ec E].
+  apply (be_enc_inj 1) in Ec; [|assumption..].
+  apply app_inv_head in E.
+  apply app_inj_pfx_len in E; [|now rewrite !be_enc_length]. destruct E as [Ev E].
+  apply app_inj_pfx_len in E; [|now rewrite !be_enc_length]. destruct E as [Ee E].
+  apply app_inj_pfx_len in E; [|now rewrite !be_enc_length]. destruct E as [Es E].
+  apply app_inj_pfx_len in E; [|unfold len in Ec; lia]. destruct E as [Ecid E].
+  apply app_inj_pfx_len in E; [|now rewrite !be_enc_length]. destruct E as [_ Ein].
+  apply (be_enc_inj 2) in Ev; [|assumption..].
+  apply (be_enc_inj 2) in Ee; [|assumption..].
+  apply (be_enc_inj 6) in Es; [|assumption..].
+  now subst.
+Qed.
+
+(* lengths of the two MAC inputs over the same fragment: 13 versus 23+|cid| header bytes *)
+Lemma cbc_mac_inputs_lengths e s t v frag e' s' v' cid :
+  length (cbc_mac_input e s t v frag) = (13 + length frag)%nat /\
+  length (cbc_mac_input_cid e' s' v' cid frag) = (23 + length cid + length frag)%nat.
+Proof.
+  split; [|apply cbc_mac_input_cid_layout].
+  unfold cbc_mac_input, seq_num. repeat rewrite app_length. repeat rewrite be_enc_length. lia.
+Qed.
+
+(* regression fact (former defect F8, fixed in /repo by "fix: MAC the inner plaintext once in CBC
+   records with a connection ID"): appending the inner plaintext a second time changes the MAC
+   input whenever the inner plaintext is non-empty.  Not a property theorem. *)
+Lemma cbc_mac_input_cid_once e s v cid inner :
+  inner <> [] -> cbc_mac_input_cid e s v cid inner ++ inner <> cbc_mac_input_cid e s v cid inner.
+Proof.
+  intros Hne E. rewrite <- (app_nil_r (cbc_mac_input_cid e s v cid inner)) in E at 2.
+  apply app_inv_head in E. contradiction.
 Qed.
 
 Lemma cbc_padding_length block n : 0 < block ->
